@@ -412,6 +412,12 @@ func (x *xtr) stmts(list []ast.Stmt, rest [][]ast.Stmt) (string, error) {
 				if cond == "k == reflect.Array || k == reflect.Struct" && st.Else == nil {
 					return cont()
 				}
+				// ... followed by the copy of a value read through an indirect register (b < 0): the
+				// programs of the model have no indirect registers (closures are outside the subset)
+				if el, ok := st.Else.(*ast.IfStmt); ok && cond == "k == reflect.Array || k == reflect.Struct" && el.Else == nil && el.Init == nil &&
+					types.ExprString(el.Cond) == "b < 0 && op > 0 && rv.CanAddr() && k != reflect.Interface" {
+					return cont()
+				}
 			}
 			return "", fmt.Errorf("if with init statement: %s", types.ExprString(st.Cond))
 		}
